@@ -488,6 +488,19 @@ func (e *storEnv) commit(sig *strings.Builder) {
 			}
 		}
 	}
+	if err == nil {
+		// C15 / C03: a successful commit leaves nothing owned in the write set (every observer agrees)
+		if got := int(e.ps.DeltasWithoutTempAddresses()); got != 0 {
+			for _, p := range []string{"C15", "C03"} {
+				e.violation(p, fmt.Sprintf("after a successful commit the write set still reports %d owned entries", got))
+			}
+		}
+		for a := uint64(1); a <= 2; a++ {
+			if e.ps.HasUnsavedChanges(hx.MkAddr(a)) {
+				e.violation("C15", fmt.Sprintf("after a successful commit HasUnsavedChanges(%d) is still true", a))
+			}
+		}
+	}
 	// what stays pending must still be in the write set
 	deltas := atree.VerifDeltas(e.ps)
 	for id, v := range e.pend {
